@@ -278,14 +278,25 @@ func solve(script string, timeoutMs int, wantAgreement bool) SolverResult {
 	firstRaw := r
 	ctx, cancel := context.WithCancel(context.Background())
 	defer cancel()
-	ch := make(chan SolverResult, len(solvers))
+	ch := make(chan SolverResult, len(solvers)+1)
 	for _, sp := range solvers {
 		sp := sp
 		go func() { ch <- runSolver(ctx, sp, script, timeoutMs) }()
 	}
+	racers := len(solvers)
+	// a fourth racer without the quantified string axioms: `unsat` from fewer assumptions is `unsat`; `sat` is a
+	// counter-model up to the theory of strings (the quantifiers otherwise turn every `sat` into `unknown`)
+	if stripped := dropStrAxioms(script); stripped != script {
+		racers++
+		go func() {
+			rr := runSolver(ctx, solvers[0], stripped, timeoutMs)
+			rr.Solver += " (string axioms dropped)"
+			ch <- rr
+		}()
+	}
 	var last SolverResult = firstRaw
 	total := r.Ms
-	for range solvers {
+	for i := 0; i < racers; i++ {
 		rr := <-ch
 		if rr.Verdict == "unsat" || rr.Verdict == "sat" {
 			rr.Ms += total
@@ -436,4 +447,21 @@ func sortedKeys[V any](m map[string]V) []string {
 
 func writeFile(path, content string) error {
 	return os.WriteFile(path, []byte(content), 0o644)
+}
+
+// dropStrAxioms removes the quantified axioms over the uninterpreted sort Str from a script
+func dropStrAxioms(script string) string {
+	var b strings.Builder
+	changed := false
+	for _, ln := range strings.SplitAfter(script, "\n") {
+		if strings.HasPrefix(ln, "(assert (forall ((s Str)") || strings.HasPrefix(ln, "(assert (forall ((a Str)") {
+			changed = true
+			continue
+		}
+		b.WriteString(ln)
+	}
+	if !changed {
+		return script
+	}
+	return b.String()
 }
